@@ -229,6 +229,8 @@ type zzStep struct {
 	names []string
 	// emptyMessages: results carry no message text
 	emptyMessages bool
+	// xrStatus: status the step puts into the desired composite (nil = none)
+	xrStatus map[string]any
 }
 
 type zzCall struct {
@@ -331,6 +333,13 @@ func (r *zzRunner) RunFunction(_ context.Context, name string, req *fnv1.RunFunc
 	}
 	if st.xrReady != fnv1.Ready_READY_UNSPECIFIED {
 		rsp.Desired.Composite = &fnv1.Resource{Ready: st.xrReady}
+	}
+	if st.xrStatus != nil {
+		body, err := structpb.NewStruct(map[string]any{"status": st.xrStatus})
+		if err != nil {
+			panic(err)
+		}
+		rsp.Desired.Composite = &fnv1.Resource{Ready: st.xrReady, Resource: body}
 	}
 	rsp.Conditions = st.conds
 	if len(st.reqNames) > 0 {
